@@ -73,5 +73,24 @@ let run inp obs : string option * string option =
     (match forged, r1, r2 with
      | Some e, _, _ | None, Some e, _ | None, None, Some e -> (Some e, None)
      | None, None, None -> (None, None))
+  | ["C14S"; proto; _st; steps], [h1; h2; changed] ->
+    (* header metadata accumulated by SetHeader calls and a final SendHeader: per key, the values of all
+       steps in the order of the calls (grpc-go's contract), for this call only, and the application's
+       own metadata objects are left alone *)
+    let steps = Stdlib.List.map (fun st -> dec_map (String.sub st 1 (String.length st - 1))) (String.split_on_char '+' steps) in
+    let keys = Stdlib.List.sort_uniq compare (Stdlib.List.concat_map (fun m -> Stdlib.List.map (fun (k, _) -> bytes_str k) m) steps) in
+    let want k = Stdlib.List.concat_map (fun m -> match Stdlib.List.find_opt (fun (k', _) -> bytes_str k' = k) m with Some (_, vs) -> Stdlib.List.map bytes_str vs | None -> []) steps in
+    let check which h =
+      let h = dec_map h in
+      Stdlib.List.find_map (fun k ->
+          let got = match Stdlib.List.find_opt (fun (k', _) -> bytes_str k' = k) h with Some (_, vs) -> Stdlib.List.map bytes_str vs | None -> [] in
+          if got = want k then None
+          else Some (Printf.sprintf "%s call over %s: header %S arrived as [%s]; the handler's SetHeader / SendHeader calls gave [%s] in this order" which proto k
+                       (String.concat "|" got) (String.concat "|" (want k)))) keys in
+    (match check "first" h1, check "second" h2 with
+     | Some e, _ | None, Some e -> (Some e, None)
+     | None, None ->
+       if changed = "1" then (Some "the server modified a metadata object that belongs to the handler (passed to SetHeader / SendHeader)", None)
+       else (None, None))
   | _ -> (Some "unparsable C14 case", None)
 let () = Evalreg.register "C14" run
